@@ -64,12 +64,12 @@ func derCat(items ...[]byte) []byte {
 	}
 	return out
 }
-func derSeq(items ...[]byte) []byte  { return derTLV(0x30, derCat(items...)) }
-func derInt(z *big.Int) []byte       { return derTLV(0x02, twosComplement(z)) }
-func derSmall(i int64) []byte        { return derInt(big.NewInt(i)) }
-func derOctets(b []byte) []byte      { return derTLV(0x04, b) }
-func derBits(b []byte) []byte        { return derTLV(0x03, append([]byte{0}, b...)) }
-func derNull() []byte                { return []byte{0x05, 0x00} }
+func derSeq(items ...[]byte) []byte          { return derTLV(0x30, derCat(items...)) }
+func derInt(z *big.Int) []byte               { return derTLV(0x02, twosComplement(z)) }
+func derSmall(i int64) []byte                { return derInt(big.NewInt(i)) }
+func derOctets(b []byte) []byte              { return derTLV(0x04, b) }
+func derBits(b []byte) []byte                { return derTLV(0x03, append([]byte{0}, b...)) }
+func derNull() []byte                        { return []byte{0x05, 0x00} }
 func derExplicit(n int, inner []byte) []byte { return derTLV(0xa0|byte(n), inner) }
 func derOID(arcs ...int) []byte {
 	var c []byte
@@ -286,13 +286,13 @@ func sshPubLine(typ string, blob []byte, comment string) []byte {
 // ---------- PuTTY PPK ----------
 
 type ppkMeta struct {
-	version    int
-	typ        string
-	encryption string
-	comment    string
-	kdf        string
+	version          int
+	typ              string
+	encryption       string
+	comment          string
+	kdf              string
 	mem, passes, par int
-	salt       []byte
+	salt             []byte
 }
 
 func wrap64(b []byte) []string {
